@@ -1067,6 +1067,21 @@ def drop_nested_fns(toks, stats):
         stats["R14.drop_nested_fn"] = stats.get("R14.drop_nested_fn", 0) + 1
 
 
+# R18: a detached task.  `tokio::spawn(async [move] { .. })`  ->  `vx_spawn_detached()`
+#   The block runs later, on another task, or never: none of its effects is visible to the code that follows the call, which is all a sequential
+#   contract of the enclosing function speaks about (what the detached task does is outside that contract).
+def r18_detached_spawn(toks, stats):
+    while True:
+        m = match_table(toks)
+        hit = None
+        for i, t in enumerate(toks):
+            if t.s == "spawn" and i >= 2 and toks[i - 1].s == "::" and toks[i - 2].s == "tokio" and i + 2 < len(toks) and toks[i + 1].s == "(" and toks[i + 2].s == "async":
+                hit = i; break
+        if hit is None: return toks
+        close = m[hit + 1]
+        toks[hit - 2:close + 1] = T("vx_spawn_detached()")
+        stats["R18.detached_spawn"] = stats.get("R18.detached_spawn", 0) + 1
+
 # R10c: definitional unfolding of Result::map_err with a closure literal
 #   E.map_err(|e| B)  ->  (match E { Ok(vx_v) => Ok(vx_v), Err(e) => Err(B) })
 def r10_result_unfold(toks, stats):
